@@ -20,7 +20,9 @@
 (***************************************************************************)
 EXTENDS Squitterator, FiniteSets, TLC, Json
 
-CONSTANTS Alphabet, Filt, OptR, OptU, DeleteAfter, Ticks, MaxSteps
+CONSTANTS Alphabet, Filt, OptR, OptU, DeleteAfter, Ticks, MaxSteps,
+          Batch,          \* set of repeat counts: Line(k, n) feeds frame k n times in a row (n = 1: a single line)
+          TickResetsCtr   \* TRUE: a clock step also starts a new reader run (file segments); FALSE: one continuous feed
 
 VARIABLES table,   \* address -> row (the aircraft table)
           aux,     \* address -> [slots, adv]   position slots and advertised registers (decoder memory)
@@ -180,7 +182,13 @@ Rejected(k) ==
   /\ ~(li.isf /\ li.a # 0 /\ PassesFilter(li.df, Filt) /\ li.df \in NineDF)
   /\ UNCHANGED <<table, aux, now, ctr, cnt, ref, refcnt>>
 
-Apply(k) ==
+\* sweep counter after n further frames starting from c (a sweep when the counter exceeds 10, then it restarts)
+RECURSIVE CtrAfter(_, _)
+CtrAfter(c, n) == IF n = 0 THEN c ELSE IF c > 10 THEN CtrAfter(1, n - 1) ELSE CtrAfter(c + 1, n - 1)
+\* index (1..n) of the first frame of the batch at which a sweep happens, 0 if none
+SweepAt(c, n) == IF c > 10 THEN 1 ELSE IF c + n - 1 > 10 THEN 12 - c ELSE 0
+
+Apply(k, n) ==
   LET li == LI[k]
       f  == li.f
       a  == li.a
@@ -196,31 +204,37 @@ Apply(k) ==
            rf0  == IF a \in DOMAIN ref THEN ref[a] ELSE [v |-> RefFresh, heard |-> now, since |-> 0]
            rf1  == [v |-> [p \in Params |-> RefStep(p, rf0.v[p], f, ~ctx.exists, r[p], go)], heard |-> now, since |-> 0]
            r1   == [b \in (DOMAIN ref) \cup {a} |-> IF b = a THEN rf1 ELSE ref[b]]
-           sweep == ctr > 10
+           at   == SweepAt(ctr, n)
+           sweep == at > 0
            keep == IF sweep THEN {b \in DOMAIN t1 : ~Stale(t1[b], now)} ELSE DOMAIN t1
            \* reference: frames processed since the aircraft went stale
            r2   == [b \in DOMAIN r1 |-> IF b # a /\ (now - r1[b].heard) \div 1000 >= DeleteAfter
-                                        THEN [r1[b] EXCEPT !.since = @ + 1] ELSE r1[b]]
-       IN  /\ table' = [b \in keep |-> t1[b]]
+                                        THEN [r1[b] EXCEPT !.since = @ + (IF sweep THEN at ELSE n)] ELSE r1[b]]
+       IN  \* a batch repeats a frame whose effect is deterministic and idempotent (time does not pass inside a step)
+           /\ (n = 1 \/ NextRows(r, f, [ctx EXCEPT !.exists = TRUE], AuxNext(x, f, now), now) = {r})
+           /\ table' = [b \in keep |-> t1[b]]
            /\ aux' = [b \in keep |-> x1[b]]
            /\ ref' = [b \in keep |-> r2[b]]
-           /\ ctr' = IF sweep THEN 1 ELSE ctr + 1
-  /\ cnt' = [d \in (DOMAIN cnt) \cup {li.df} |-> IF d = li.df THEN (IF d \in DOMAIN cnt THEN cnt[d] + 1 ELSE 1) ELSE cnt[d]]
-  /\ refcnt' = [d \in (DOMAIN refcnt) \cup {li.df} |-> (IF d \in DOMAIN refcnt THEN refcnt[d] ELSE 0) + (IF d = li.df THEN 1 ELSE 0)]
+           /\ ctr' = CtrAfter(ctr, n)
+  /\ cnt' = [d \in (DOMAIN cnt) \cup {li.df} |-> IF d = li.df THEN (IF d \in DOMAIN cnt THEN cnt[d] + n ELSE n) ELSE cnt[d]]
+  /\ refcnt' = [d \in (DOMAIN refcnt) \cup {li.df} |-> (IF d \in DOMAIN refcnt THEN refcnt[d] ELSE 0) + (IF d = li.df THEN n ELSE 0)]
   /\ UNCHANGED now
 
-Line(k) == /\ steps < MaxSteps
-           /\ (Rejected(k) \/ Apply(k))
-           /\ steps' = steps + 1
-           /\ hist' = Append(hist, k)
+Line(k, n) == /\ steps < MaxSteps
+              /\ (Rejected(k) \/ Apply(k, n))
+              /\ steps' = steps + 1
+              /\ hist' = Append(hist, k + 1000 * (n - 1))      \* frame k, n times
 
 Tick(d) == /\ steps < MaxSteps
            /\ now' = now + d
            /\ steps' = steps + 1
            /\ hist' = Append(hist, -d)
-           /\ UNCHANGED <<table, aux, ctr, cnt, ref, refcnt>>
+           /\ ctr' = IF TickResetsCtr THEN 0 ELSE ctr
+           \* the 12-frame bound of C12 is counted within one reader run (a reconnect / new segment restarts it)
+           /\ ref' = IF TickResetsCtr THEN [a \in DOMAIN ref |-> [ref[a] EXCEPT !.since = 0]] ELSE ref
+           /\ UNCHANGED <<table, aux, cnt, refcnt>>
 
-Next == (\E k \in Frames : Line(k)) \/ (\E d \in Ticks : Tick(d))
+Next == (\E k \in Frames, n \in Batch : Line(k, n)) \/ (\E d \in Ticks : Tick(d))
 Spec == Init /\ [][Next]_vars
 
 (****************************** properties *********************************)
@@ -229,7 +243,7 @@ InvFold == \A a \in DOMAIN table : \A p \in Params : table[a][p] \in ref[a].v[p]
 \* C03: one row per address is structural (table is a function); a step touches at most the frame's aircraft
 Isolation == [][LET h == hist' IN
                  (Len(h) > Len(hist) /\ h[Len(h)] > 0) =>
-                 LET a == LI[h[Len(h)]].a IN
+                 LET a == LI[h[Len(h)] % 1000].a IN
                  /\ \A b \in (DOMAIN table') \ {a} : b \in DOMAIN table /\ table'[b] = table[b]
                  /\ (DOMAIN table') \subseteq (DOMAIN table) \cup {a}]_vars
 \* C12: heard less than delete_after ago => present; last-contact stamp = time last heard;
